@@ -406,6 +406,28 @@ fn runtime_case(
     need_pops: u64,
 ) {
     let fam = alg.family();
+    // (0) a budget that cannot expire (the ways of writing "no limit" as a duration): the answer is the unlimited one
+    {
+        rep.eval();
+        let (label, limit) = match need_pops % 4 {
+            0 => ("Duration::MAX", std::time::Duration::MAX),
+            1 => ("u64::MAX seconds", std::time::Duration::from_secs(u64::MAX)),
+            2 => ("i64::MAX seconds", std::time::Duration::from_secs(i64::MAX as u64)),
+            _ => ("a million years", std::time::Duration::from_secs(31_557_600_000_000)),
+        };
+        si.termination_model = Arc::new(routee_compass_core::model::termination::termination_model::TerminationModel::QueryRuntimeLimit { limit, frequency: 1 + need_pops % 3 });
+        let (out, ctx) = run_once(alg, si, od, reverse, budget, false);
+        let replay = || {
+            let mut r = replay_base.clone();
+            r["limit"] = json!({"runtime": label, "frequency": 1 + need_pops % 3});
+            r
+        };
+        if check_outcome(rep, out, &ctx, r0, &format!("C10|runtime|{fam}|budget-that-cannot-expire"), "runtime limit", replay) == Some(false) {
+            rep.violate(&format!("C10|runtime|{fam}|budget-that-cannot-expire|terminated"), format!("L3 a budget of {label} expired"), replay);
+        } else {
+            rep.count("runtime_budgets_that_cannot_expire_confirmed", 1);
+        }
+    }
     // (a) exhausted budget: stops at the first scheduled check
     for f in [1u64, 2, 3, 7] {
         rep.eval();
